@@ -96,6 +96,7 @@ struct Args {
     after: Option<u32>,
     transcript: Option<(u32, String)>,
     list: bool,
+    case_timeout: Option<u64>,
 }
 
 fn parse_args() -> Result<Args, String> {
@@ -110,6 +111,7 @@ fn parse_args() -> Result<Args, String> {
         after: None,
         transcript: None,
         list: false,
+        case_timeout: None,
     };
     let argv: Vec<String> = std::env::args().skip(1).collect();
     let mut i = 0;
@@ -144,6 +146,7 @@ fn parse_args() -> Result<Args, String> {
                 )
             }
             "--after" => a.after = Some(need(i)?.parse().map_err(|_| "bad --after")?),
+            "--case-timeout" => a.case_timeout = Some(need(i)?.parse().map_err(|_| "bad --case-timeout")?),
             "--transcript" => {
                 let v = need(i)?;
                 let (c, item) = v.split_once(':').ok_or("bad --transcript")?;
@@ -203,6 +206,21 @@ pub fn main_with(all: &[&[&'static VTable]]) {
         .append(true)
         .open(&report_path)
         .expect("open report");
+    // optional watchdog: a single (case, property) which runs longer than the limit aborts the process with a
+    // recognisable line; the runner restarts the shard after that case and records it as inconclusive (a
+    // wall-clock limit is never a verdict)
+    static CASE_START: std::sync::atomic::AtomicU64 = std::sync::atomic::AtomicU64::new(0);
+    let t_origin = std::time::Instant::now();
+    if let Some(limit) = args.case_timeout {
+        std::thread::spawn(move || loop {
+            std::thread::sleep(std::time::Duration::from_millis(500));
+            let start = CASE_START.load(std::sync::atomic::Ordering::SeqCst);
+            if start != 0 && t_origin.elapsed().as_secs() > start + limit {
+                eprintln!("CASE-TIMEOUT: a single case exceeded {limit} s");
+                std::process::abort();
+            }
+        });
+    }
     let mut done = 0u64;
     for (idx, vt) in cases.iter().enumerate() {
         if let Some(only) = &args.only {
@@ -220,6 +238,7 @@ pub fn main_with(all: &[&[&'static VTable]]) {
         for prop in &args.props {
             // marker first: an abort inside the case is attributed to it
             std::fs::write(&marker_path, format!("{} {}\n", vt.id, prop)).expect("marker");
+            CASE_START.store(t_origin.elapsed().as_secs().max(1), std::sync::atomic::Ordering::SeqCst);
             let t0 = std::time::Instant::now();
             let mut rep = check_case(vt, prop, &args.budget, args.seed);
             rep.wall_ms = t0.elapsed().as_millis() as u64;
